@@ -340,10 +340,36 @@ def run_part(ctx, quick):
         wc.append(dict(c0, id=len(wc)))
     dc = gen_direct(ctx, 80 if quick else 800, first_id=len(wc))
     gc = gen_regrad(ctx, 60 if quick else 600, first_id=len(wc) + len(dc))
-    cases = wc + dc + gc
+    # histories: several steps on ONE transformation (what the lifetime theorem quantifies over):
+    # windows, direct updates and re-initialisations of the same dimension in random order
+    r = ctx.rnd()
+    hc = []
+    by_dim = {}
+    for c0 in wc + dc + gc:
+        by_dim.setdefault(c0["dim"], []).append(c0)
+    for k in range(40 if quick else 400):
+        dim = r.choice(sorted(by_dim))
+        pool = by_dim[dim]
+        steps = [dict(r.choice(pool)) for _ in range(r.randint(2, 6))]
+        if k % 2 == 0:
+            # an accepted update WITH eigenvalues followed (at once or later) by an accepted update
+            # of rank 0 or a re-initialisation: nothing of the old low-rank part may survive
+            def valid(ne):
+                return {"dim": dim, "kind": "direct:none",
+                        "direct": {"stds": [str(f2b(math.exp(r.uniform(-3, 3)))) for _ in range(dim)],
+                                   "mean": [str(f2b(r.uniform(-3, 3))) for _ in range(dim)],
+                                   "vals": [str(f2b(math.exp(r.choice([-1, 1]) * r.uniform(0.8, 5)))) for _ in range(ne)],
+                                   "vecs": [[str(f2b(1.0 if i == j else 0.0)) for i in range(dim)] for j in range(ne)],
+                                   "mu": [str(f2b(r.uniform(-2, 2))) for _ in range(dim)]}}
+            steps = [valid(r.randint(1, dim))] + steps[: r.randint(0, 2)] + [valid(0)] + steps[2:4]
+        for st in steps:
+            st.pop("pair", None)
+        hc.append({"id": len(wc) + len(dc) + len(gc) + k, "dim": dim, "kind": "history", "history": steps,
+                   "prev_stds": pool[0]["prev_stds"], "prev_mean": pool[0]["prev_mean"]})
+    cases = wc + dc + gc + hc
     outs, errs = run_harness_parallel("lowrank", cases)
     ctx.oblig("harness-run-lowrank", not errs and len(outs) == len(cases), "\n".join(errs)[:1500])
-    stats = {"windows": len(wc), "direct": len(dc), "regrad": len(gc), "kinds": {}, "changed": 0, "kept_previous": 0, "gave_up": 0,
+    stats = {"windows": len(wc), "direct": len(dc), "regrad": len(gc), "histories": len(hc), "kinds": {}, "changed": 0, "kept_previous": 0, "gave_up": 0,
              "nonfinite_rescaled": 0, "oracle_rescale": 0, "oracle_riccati": 0, "oracle_whitening": 0, "filter_pairs": 0,
              "row_ties": 0}
     exprs, meta = [], []
@@ -365,10 +391,18 @@ def run_part(ctx, quick):
                       {"case": {k: v for k, v in c.items() if k != "prec"}, "detail": extra,
                        "correspondence": "model/LowRank.v vs LowRankMassMatrixStrategy / LowRankMassMatrix::update"}, found_input=False)
 
+    items = []
     for c in cases:
         o = outs.get(c["id"])
         if not o:
             continue
+        if "history" in c and "steps" in o:
+            stats["history_steps"] = stats.get("history_steps", 0) + len(o["steps"])
+            for k, (st, so) in enumerate(zip(c["history"], o["steps"])):
+                items.append((dict(st, id="%s.%d" % (c["id"], k), pair=None, in_history=[c["id"], k]), so))
+        else:
+            items.append((c, o))
+    for c, o in items:
         if "harness_panic" in o:
             impl_bad("%s window: panic %s" % (c["kind"], o["harness_panic"]), c)
             continue
